@@ -565,6 +565,7 @@ class HtmlWriter:
 
     def _get_entry_dict(self, cwd, entry, desc=True):
         self.pc = entry.address
+        title = self.expand(entry.description, cwd)
         if desc:
             description = [self.expand(p, cwd).strip() for p in entry.details]
         else:
@@ -582,7 +583,7 @@ class HtmlWriter:
             'href': self._asm_relpath(cwd, entry.address),
             'size': entry.size,
             'length': self.game_vars['Length'].format(size=entry.size),
-            'title': self.expand(entry.description, cwd)
+            'title': title
         }
 
     def _get_map_entry_dict(self, cwd, entry, desc):
